@@ -285,6 +285,9 @@ func c09(r *mon.Run) {
 		Do: func(i int, t *mon.Tally) {
 			rng := gen.DeriveN(r.Seed, "c09large", i)
 			n := rng.Intn(40)
+			if i%4 == 0 {
+				n = []int{12, 13, 16, 17, 32, 33, 64, 65, 100}[(i/4)%9] // around the usual small-input thresholds
+			}
 			nums := make([]interface{}, n)
 			strs := make([]interface{}, n)
 			objs := make([]interface{}, n)
